@@ -177,6 +177,12 @@ try:
 except ImportError:
     pass
 
+try:
+    import gen_evtx
+    MODULES['Evtx'] = gen_evtx.generate
+except ImportError:
+    pass
+
 def main():
     args = sys.argv[1:]
     repo = '/repo'
